@@ -231,7 +231,10 @@ class SStr:
 
     def __getitem__(self, k):
         if isinstance(k, slice):
-            return SStr(self.items[k])
+            part = self.items[k]
+            if all(isinstance(i, str) for i in part):
+                return "".join(part)          # a fully concrete slice is an ordinary str (usable as a keyword etc.)
+            return SStr(part)
         return self.items[k]
 
     def __add__(self, other):
